@@ -174,6 +174,7 @@ def run_check(check_id: str, tier: str, seed: int) -> int:
         "determinism_selfchecks": tot["selfcheck"], "workers": nshards,
         "known_finding_hits": sum(known_hits.values()),
     }
+    cov["shard_wall_s"] = sorted(round(s_.get("wall_s", 0), 1) for s_ in shards)
     if seeds_used:
         cov["hash_seeds"] = seeds_used
     if info0.get("cfg_variants"):
